@@ -306,6 +306,41 @@ func TestC03(t *testing.T) {
 		if msg := checkSorted(in, got, orders); msg != "" {
 			t.Fatalf("Sort result invalid: %s\n%s", msg, desc())
 		}
+		// a sorted frame that is changed and sorted again by the same orders: the new values count
+		if rapid.IntRange(0, 3).Draw(t, "resort") == 0 && len(orders) > 0 {
+			gotDecl := hx.WithEnumDecl(got, in)
+			key := gotDecl.MustCol(orders[0].Col)
+			var donors []hx.Col
+			for _, c := range gotDecl.Cols {
+				if c.Name != key.Name && c.Name != "id" && c.Kind == key.Kind && (c.Kind != hx.KEnum || sameStrings(c.Enum, key.Enum)) {
+					donors = append(donors, c)
+				}
+			}
+			if len(donors) > 0 {
+				donor := donors[rapid.IntRange(0, len(donors)-1).Draw(t, "donor")]
+				changed := res.Copy(key.Name, donor.Name)
+				res2 := changed
+				if perr := hx.Safely(func() { res2 = changed.Sort(hx.BuildOrders(orders)...) }); perr != nil || res2.Err != nil {
+					t.Fatalf("Sort of the changed frame: panic %v, Err %v\n%s", perr, res2.Err, desc())
+				}
+				in2 := hx.Table{Cols: append([]hx.Col(nil), gotDecl.Cols...)}
+				for i := range in2.Cols {
+					if in2.Cols[i].Name == key.Name {
+						nc := donor
+						nc.Name = key.Name
+						in2.Cols[i] = nc
+					}
+				}
+				got2, err := hx.Observe(res2)
+				if err != nil {
+					t.Fatalf("observe: %v\n%s", err, desc())
+				}
+				if msg := checkSorted(in2, got2, orders); msg != "" {
+					t.Fatalf("after Copy(%q, %q) on the sorted frame, sorting again by the same orders: %s\n%s", key.Name, donor.Name, msg, desc())
+				}
+				classes = append(classes, "sorted-changed-sorted-again")
+			}
+		}
 		// sorting must not have disturbed the receiver
 		again, err := hx.Observe(d.QF)
 		if err != nil || hx.Diff(in, again) != "" {
@@ -321,4 +356,16 @@ func TestC03(t *testing.T) {
 		nontrivial := in.N() >= 2 && !alreadyOrdered(in, orders)
 		evC03.Case(nontrivial, desc, classes...)
 	})
+}
+
+func sameStrings(a, b []string) bool {
+	if len(a) != len(b) || (a == nil) != (b == nil) {
+		return false
+	}
+	for i := range a {
+		if a[i] != b[i] {
+			return false
+		}
+	}
+	return true
 }
